@@ -8,6 +8,13 @@ Part sweep (E3): every registered object class x every property, one instance wi
            datatype (and a twin class whose plainly described properties are re-declared writable):
            read whole / 0 / 1 / n / n+1, ReadPropertyMultiple of the same references and of all / required /
            optional, writes of a valid, a wrong-typed and a Null value, whole and per element.
+
+Deviations from DESIGN.md: the standard classes declare almost every property read-only, so the history objects
+are vendor subclasses that re-declare some properties writable and the sweep adds a "writable twin" of every class
+(what an application does to open a property for writing); the value generator is a small recursive one of its own
+(bv.stacks.devsys.gen_property) instead of the C03 generator; the quick tier uses indexes {none,0,1} for properties
+that are not arrays (they have no n); writes whose acceptance the statement leaves open (array length, Null where the
+datatype admits NULL) are judged on their consequences only.
 """
 import time
 
@@ -15,18 +22,19 @@ import bv  # noqa: F401
 from bv.engine import vclock
 from bv.engine.acc import Acc, h64
 from bv.engine.bfs import bfs
-from bv.engine.pool import run_shards, chunks, HarnessError
+from bv.engine.pool import run_shards, HarnessError
 from bv.refs import propref as R
 from bv.stacks import devsys as D
 
 PROPERTY = "C15"
 LEVEL = "model_checking"
-BUDGET = {"quick": 80.0, "thorough": 840.0}
+BUDGET = {"quick": 85.0, "thorough": 840.0}
 RULE = ("hist: BFS over all histories of the alphabet {ReadProperty, WriteProperty, ReadPropertyMultiple} x 5 objects "
         "(analog value, binary value, multi-state value, character-string value, the device; vendor subclasses re-declare "
         "present value / stateText / alarmValues / eventTimeStamps writable) + 2 unknown objects x role properties "
         "{present value, array(s), list(s), read-only, absent, not in the class} x index {none,0,1,n,n+1} x value {valid1, "
-        "valid2, wrong-typed, Null} (+ priority 1/16 on present value, + explicit / mixed / all / required / optional RPM); "
+        "valid2, wrong-typed, Null, two values for a scalar} (+ priority 1/16 on present value, + explicit / mixed / all / "
+        "required / optional RPM); "
         "a state is the canonical dump of every object's _values (+ the device's object indexes); every operation is "
         "applied in every state reached by at most depth-1 state-changing operations, operations that leave the dump "
         "unchanged are applied one after another on the same live system, after a state-changing one the state is rebuilt "
@@ -176,13 +184,13 @@ def items_unjson(js):
 # =====================================================================================================
 
 class Session(object):
-    def __init__(self, sysm, model, acc, mkcase, cache=None):
+    def __init__(self, sysm, model, acc, mkcase):
         self.s = sysm
         self.m = model
         self.acc = acc
         self.mkcase = mkcase            # opdesc -> replay case
         self.base = sysm.dump()
-        self.cache = {} if cache is None else cache
+        self.cache = {}                 # ReadProperty replies of the current state
         self.badrp = set()
         self.nsw = len(vclock.swallowed)
         self.nfail = 0
@@ -206,7 +214,7 @@ class Session(object):
         return p.ptype if p is not None else None
 
     # ---- ReadProperty
-    def rp(self, objkey, prop, index, judge=True):
+    def rp(self, objkey, prop, index):
         k = (objkey, prop, index)
         if k in self.cache:
             return self.cache[k]
@@ -307,7 +315,9 @@ class Session(object):
                 self.fail("write:refused-but-accept-expected:%s:%s:got=%s%s" % (t, ic, short(reply), swt), detail, opdesc)
             elif verdict[0] == "refuse" and reply not in R.admissible(verdict[1]):
                 detail["admissible"] = sorted(R.admissible(verdict[1]))
-                self.fail("write:refusal-not-admissible(%s):%s:%s:got=%s%s" % ("+".join(verdict[1]), t, ic, short(reply), swt),
+                # an exception the device logged names the root cause better than the type/index class does
+                where = "" if swt else ":%s:%s" % (t, ic)
+                self.fail("write:refusal-not-admissible(%s)%s:got=%s%s" % ("+".join(verdict[1]), where, short(reply), swt),
                           detail, opdesc)
             if changed:
                 detail["changed"] = diff_dump(self.base, after)
@@ -329,7 +339,7 @@ class Session(object):
         n = len(p.items)
         for i in list(range(0, n + 2)) + [None]:
             r = self.s.read(objkey, prop, i)
-            self._sw()
+            sw = self._sw()
             self.acc.transitions += 1
             exp = m2.read(objkey, prop, i)
             if exp[0] == "value" and exp[1] is None and i is not None and r[0] == "ack":
@@ -342,9 +352,9 @@ class Session(object):
             if not ok:
                 d = dict(detail)
                 d["then-read"] = {"index": i, "reply": r, "expected": exp}
-                self.fail("write:acked-but-array-inconsistent:%s:%s:then-read-%s:got=%s" % (
+                self.fail("write:acked-but-array-inconsistent:%s:%s:then-read-%s:got=%s%s" % (
                     t, ic, "whole" if i is None else ("0" if i == 0 else ("elem" if i <= n else "beyond")),
-                    "other-value" if r[0] == "ack" else short(r)), d, opdesc)
+                    "other-value" if r[0] == "ack" else short(r), "|swallowed=" + sw if sw else ""), d, opdesc)
                 return
 
     @staticmethod
@@ -431,11 +441,15 @@ class Session(object):
         dup = sorted(set(n for n in names if names.count(n) > 1))
         if any(i is not None for (_, i, _) in elems):
             self.fail("rpm:selector-%s:element-carries-an-index" % which, {"op": opdesc}, opdesc)
+        def who(names_):
+            # one or two deviating properties are named (a defect of their descriptors); more is systematic
+            return "%s.%s" % (objkey[0], "+".join(names_)) if len(names_) <= 2 else "many-properties"
+
         if extra:
-            self.fail("rpm:selector-%s:returns-unselected:%s.%s" % (which, objkey[0], "+".join(extra[:3])),
+            self.fail("rpm:selector-%s:returns-unselected:%s" % (which, who(extra)),
                       {"op": opdesc, "extra": extra, "expected": want}, opdesc)
         if missing:
-            self.fail("rpm:selector-%s:omits-selected:%s.%s" % (which, objkey[0], "+".join(missing[:3])),
+            self.fail("rpm:selector-%s:omits-selected:%s" % (which, who(missing)),
                       {"op": opdesc, "missing": missing, "expected": want}, opdesc)
         if dup:
             self.fail("rpm:selector-%s:property-returned-twice" % which, {"op": opdesc, "twice": dup}, opdesc)
@@ -460,8 +474,8 @@ class HistAlphabet(object):
     """Everything static of the history part for one (tier, seed)."""
 
     def __init__(self, tier, seed):
-        from bacpypes.primitivedata import Real, Unsigned, CharacterString, ObjectIdentifier, Null  # noqa: F401
-        from bacpypes.basetypes import BinaryPV, TimeStamp, DeviceStatus, EngineeringUnits, OptionalCharacterString
+        from bacpypes.primitivedata import Real, Unsigned, CharacterString, ObjectIdentifier
+        from bacpypes.basetypes import BinaryPV, TimeStamp, DeviceStatus, EngineeringUnits
         self.tier, self.seed = tier, seed
         rot = seed % 3
 
@@ -484,7 +498,9 @@ class HistAlphabet(object):
 
         def scalar_values(v1, v2, wrong):
             vals = {"valid1": (v1,), "valid2": (v2,), "wrong": (wrong,), "null": (null,)}
-            return {"whole": vals, "zero": vals, "elem": vals}
+            whole = dict(vals)
+            whole["two"] = (v1, v2)         # two values where one is expected: also a wrong datatype
+            return {"whole": whole, "zero": vals, "elem": vals}
 
         def array_values(w1, w2, wrong_whole, e1, e2, wrong_elem, len1, len2):
             return {"whole": {"valid1": tuple(w1), "valid2": tuple(w2), "wrong": tuple(wrong_whole), "null": (null,)},
@@ -625,7 +641,9 @@ class HistAlphabet(object):
         for objkey, props, roles in self.objects:
             for prop, values in roles:
                 for ix in idxs(props, prop):
-                    for vn in ("valid1", "valid2", "wrong", "null"):
+                    for vn in ("valid1", "valid2", "wrong", "null", "two"):
+                        if vn not in values["whole" if ix is None else ("zero" if ix == 0 else "elem")]:
+                            continue
                         order.append((0 if (ix is None and vn == "valid1") else 1, objkey, prop, ix, vn, None))
                 if prop == "presentValue":
                     order.append((1, objkey, prop, None, "valid1", 1))
@@ -926,6 +944,8 @@ def sweep_one(ci, variant, v, n, acc, only_prop=None):
             else:
                 plan.append((None, (wrong, g2.items[0]), "wrong"))
         plan.append((None, (R.NULL_ITEM,), "null"))
+        if p.kind() == "one" and all(k[0] == "app" for k in p.ptype[1]):
+            plan.append((None, (g2.items[0], g2.items[0]), "two"))      # two primitives where one is expected
         if isarr:
             plan.append((0, "same-length", "valid"))
             plan.append((1, (g2.items[0],), "valid"))
@@ -1027,7 +1047,11 @@ def replay(case):
         elif op[0] == "M":
             prop = op[1][0][1][0][0]
         known = D.sweep_classes()[case["ci"]]._properties
-        sweep_one(case["ci"], case["variant"], case["v"], case["n"], acc, only_prop=prop if prop in known else None)
+        if prop in known:
+            sweep_one(case["ci"], case["variant"], case["v"], case["n"], acc, only_prop=prop)
+        if not acc.fails:
+            # the case may depend on what was written to the properties before it: replay the whole instance
+            sweep_one(case["ci"], case["variant"], case["v"], case["n"], acc)
     else:
         sysm = D.history_system()
         al = alphabet(case.get("tier", "quick"), case.get("seed", 0))
